@@ -268,6 +268,33 @@ PROPS = {
         ],
         'not_covered': ['races between subscribe / unsubscribe and a background accept or connect (the property\'s "or concurrently with the call")', 'that a peer whose send failed is eventually forgotten (C16)', 'quiescence itself: the contracts speak about the state when a call has returned'],
     },
+    'C16': {
+        'units': ['routing', 'reqrep', 'sub', 'pubsub'],
+        'scope': [
+            # a recv that reports a peer's failure has forgotten that peer completely (table entry AND queued read half:
+            # so the failure cannot be reported again and no later send goes there); every other peer is untouched
+            ('routing', r'^(RouterSocket|DealerSocket|PullSocket)::recv$', F, None),
+            ('routing', r'^GenericSocketBackend::peer_disconnected$', A, None),
+            ('reqrep', r'^RepSocket::recv$', {'post', 'inv-entry', 'inv-end'}, None),
+            ('reqrep', r'^(RepSocketBackend|ReqSocketBackend)::peer_disconnected$', A, None),
+            ('sub', r'^SubSocket::recv$', F, None),
+            ('sub', r'^SubSocketBackend::peer_disconnected$', A, None),
+            ('pubsub', r'^XPubSocket::recv$', F, None),
+            ('pubsub', r'^(XPubSocketBackend|PubSocketBackend)::peer_disconnected$', A, None),
+            # a subscriber whose pipe is broken is removed by the publish that notices it; the others are served
+            ('pubsub', r'^(PubSocket|XPubSocket)::send$', {'post'}, r'fatal_for_publish|contains_key'),
+            # a write that fails removes that peer from the table and the rotation (and only that peer)
+            ('routing', r'^GenericSocketBackend::send_round_robin$', {'post', 'inv-entry', 'inv-end'}, None),
+        ],
+        'kani': {},
+        'assumptions': [
+            'sequential scope: per-call contracts over an owned model (Arc as Box, Mutex as plain ownership, scc / SegQueue / fair queue stand-ins); fault x schedule sequences are not enumerated',
+            'FairQueue::next yields ANY (peer, item) pair, logged; that a connection which has ended yields an error item at all, and how often its FramedRead yields one while it stays registered, is asynchronous-codec behaviour (assumed; the defect demonstrations in findings/defect_demo_c16.rs show it yields one on EVERY poll)',
+            '"released" is read as: no table entry and no queued read half is left for that identity - in Rust both halves are then dropped, which closes the transport; Drop itself, buffers inside asynchronous-codec and descriptor counts are not modelled',
+            'GenericSocketBackend::peer_disconnected and QueueInner::remove are verified bodies (units routing / fairqueue); the fair queue also drops a stream that has ENDED (Ready(None)) by itself (unit fairqueue, reported under C14)',
+        ],
+        'not_covered': ['"never spins or hangs" as a liveness statement (only its cause - the read half left in the queue - is excluded)', 'REQ: ReqSocket::recv reads the peer directly and does not forget it when the read fails (seen by reading, DESIGN section 5; not under this contract); the PUB reader task (spawned; select!)', 'repeated connect / disconnect cycles over real transports, descriptor counts'],
+    },
     'C03': {
         'units': ['codec', 'handshake', 'pubsub', 'reqrep', 'routing'],
         'scope': [
